@@ -207,7 +207,7 @@ class PdPeriodQT(SpanType):
 
 class PdDatetimeT(SpanType):
     name, kind, family = 'pd_datetime', 'get_loc', 'pandas'
-    forms = ('obj', 'str')
+    forms = ('obj', 'str', 'np64')
     coarse = True
 
     def build(self, ids):
@@ -216,6 +216,8 @@ class PdDatetimeT(SpanType):
     def label(self, i, form):
         if i > 10:
             return _COARSE[i]
+        if form == 'np64':      # NumPy's own timestamps, in day and in nanosecond resolution
+            return np.datetime64(_D[i]) if i % 2 else np.datetime64(_D[i], 'ns')
         return pd.Timestamp(_D[i]) if form == 'obj' else _D[i]
 
 
@@ -364,7 +366,7 @@ def features(op):
 
 
 def key_for(phase, typ, form, what, op=None):
-    k = f'{phase}[{typ.name}{"/str" if form == "str" else ""}] {what}'
+    k = f'{phase}[{typ.name}{"/" + form if form != "obj" else ""}] {what}'
     if op is not None and features(op):
         k += ' ' + features(op)
     return k
